@@ -642,6 +642,11 @@ size_t rtosc_message_ring_length(ring_t *ring)
                 i |= (deref(pos++,ring) << 16);
                 i |= (deref(pos++,ring) << 8);
                 i |= (deref(pos++,ring));
+                //a blob that extends past the buffer is no full message
+                //(also keeps pos from wrapping around)
+                if(pos > ring[0].len+ring[1].len ||
+                        i > ring[0].len+ring[1].len-pos)
+                    return 0;
                 pos += i;
                 if((pos-aligned_pos)%4)
                     pos += 4-(pos-aligned_pos)%4;
